@@ -46,8 +46,9 @@ inline J random_ts(Rng& r) {
     J t = J::arr();
     // the six fields are stored as they are given: any value a struct tm field may take, whether or not the
     // calendar has that day (30 February) or that second (a leap second)
-    static const int64_t years[] = {1900, 1970, 1999, 2000, 2038, 2100, 9999};
-    t.push(r.chance(0.1) ? years[r.below(7)] : r.range(1970, 2105));
+    // (a year is stored in an unsigned 16-bit word: the upper half of its range is as good as the lower)
+    static const int64_t years[] = {1900, 1970, 1999, 2000, 2038, 2100, 9999, 32767, 32768, 40000, 65535};
+    t.push(r.chance(0.12) ? years[r.below(11)] : r.range(1970, 2105));
     t.push(r.range(1, 12));
     t.push(r.range(1, 31));
     t.push(r.range(0, 23));
@@ -1405,6 +1406,33 @@ inline J plan_c04(uint64_t verif_seed, uint64_t index, int tier) {
     bool dir1 = ro.chance(0.6);
     if (dir1) {
         model::MLib m = oas_model(rm, (int)ro.range(1, 6), (int)ro.range(1, tier ? 14 : 9));
+        if (ro.chance(0.3)) {
+            // labels that share their text and their leading properties (an encoder may then write those properties
+            // once, on the TEXTSTRING record): copies of a label elsewhere, some with a property of their own behind
+            std::vector<model::MLabel> pool;
+            for (auto& c : m.cells)
+                for (auto& l : c.labels)
+                    if (!l.props.empty() && l.text.size() < 200) pool.push_back(l);
+            for (int k = 0; k < 2 && !pool.empty() && !m.cells.empty(); k++) {
+                model::MLabel l = pool[ro.below(pool.size())];
+                int copies = (int)ro.range(1, 2);
+                for (int i = 0; i < copies; i++) {
+                    model::MLabel d = l;
+                    d.origin = model::Pt{l.origin.x + 10 * (model::dg_t)ro.range(-300, 300), l.origin.y + 10 * (model::dg_t)ro.range(-300, 300)};
+                    d.rep = model::MRep();
+                    if (ro.chance(0.5)) {
+                        model::MProp own;
+                        own.name = "OWN";
+                        model::MVal v;
+                        v.kind = 0;
+                        v.u = ro.below(1000);
+                        own.vals = {v};
+                        d.props.push_back(own);
+                    }
+                    m.cells[ro.below(m.cells.size())].labels.push_back(d);
+                }
+            }
+        }
         models.push(model::to_json(m));
         J p = op("peer_oas");
         p.set("model", 0);
